@@ -262,7 +262,24 @@ def _build(tier: str, sweep: bool):
     return build
 
 
+EDGE_DOCS = [
+    '2000-01-01 *\n  Assets:A 1 USD @ 0\n  Assets:B 2 USD @@ 0.00\n  Assets:C 3 USD {0 # 5 EUR}\n  Assets:D 4 USD {# 0 EUR}\n  Assets:E 0 USD {0} @\n  Assets:F\n',
+    '2000-01-01 balance Assets:A 0 ~ 0 USD\n2000-01-02 price USD 0 EUR\n2000-01-03 custom "x" 0 0 USD -0 (0)\n',
+    '2000-01-01 *\n  Assets:A {} @\n  Assets:B {{}} @@\n  Assets:C 0\n  Assets:D USD\n  kk: 0\n  nn:\n',
+    '2000-01-01 open Assets:A\n  kk: 0\n  ee: 1 - 1\n  ff: FALSE\n  gg: ""\n',
+]
+
+
+def _edge_docs():
+    """Values that are falsy in Python (0, 0.00, '', FALSE, empty lists) at the optional edges of models: every sub-model is copied."""
+    for text in EDGE_DOCS:
+        for claim in (True, False):
+            yield {'dirs': [[['X', text]]], 'claim': claim, 'ops': [], 'ops2': [], 'pre': [], 'sel': 0, 'sweep': True}
+
+
 def jobs(tier: str) -> list[Job]:
     if tier == 'quick':
-        return [Job('copy-and-edit', 'hyp', lambda: _build(tier, False), 2000), Job('sweep-all-submodels', 'hyp', lambda: _build(tier, True), 250)]
-    return [Job('copy-and-edit', 'hyp', lambda: _build(tier, False), 60000), Job('sweep-all-submodels', 'hyp', lambda: _build(tier, True), 8000)]
+        return [Job('copy-and-edit', 'hyp', lambda: _build(tier, False), 2000), Job('sweep-all-submodels', 'hyp', lambda: _build(tier, True), 250),
+                Job('edge-documents', 'enum', _edge_docs, exhaustive=True)]
+    return [Job('copy-and-edit', 'hyp', lambda: _build(tier, False), 60000), Job('sweep-all-submodels', 'hyp', lambda: _build(tier, True), 8000),
+            Job('edge-documents', 'enum', _edge_docs, exhaustive=True)]
